@@ -88,7 +88,8 @@ Diff(e, m) ==
 RedAllowed(e, a) ==
   (a.r.ok /\ e.r > 0 /\ e.fec = 0 /\ ~a.lost) =>
     LET len == a.r.sizes[a.r.count] mode == TocMode(a.r.toc) rb == e.hk[3] IN
-    IF mode = MODE_CELT \/ len <= 1 \/ e.hk[1] = 0 THEN e.hk[1] = 0 /\ e.hk[2] = 0 /\ rb = 0
+    IF mode = MODE_CELT \/ len <= 1 \/ e.hk[1] = 0
+    THEN e.hk[1] = 0 /\ rb = 0 /\ (e.hk[2] = 0 \/ (mode = MODE_HYBRID /\ e.rz = 1))       \* (sanity path: the direction bit stays as read)
     ELSE IF mode = MODE_HYBRID THEN rb \in 2..257 /\ len - rb >= 3
     ELSE rb >= 2 /\ rb <= len - 1
 
